@@ -54,6 +54,21 @@ class C17(Check):
         for f in sw:
             for p in sw:
                 yield "starts %s %s" % (hx(f), hx(p)), "starts-exh"
+        # bytes that C-string functions treat specially: NUL inside std::string, 0xff (negative as signed char)
+        Z = "a\x00\xff"
+        zs = list(strings(Z, 3 if tier == "quick" else 4))
+        for f in zs:
+            for p in zs:
+                yield "starts %s %s" % (hx(f), hx(p)), "starts-exh-nul"
+        zn = list(strings("a\x00", 2))
+        for s_ in list(strings("a\x00", 4 if tier == "quick" else 6)):
+            for n in zn:
+                yield "split %s %s" % (hx(n), hx(s_)), "split-exh-nul"
+                for r in ["", "\x00", "a\x00"]:
+                    yield "replace %s %s %s" % (hx(n), hx(r), hx(s_)), "replace-exh-nul"
+        for l in itertools.product(["", "\x00", "a", "\x00a"], repeat=3):
+            for i in ["", "\x00", ","]:
+                yield "join %s %s" % (hx(i), wl(l)), "join-exh-nul"
         elems = list(strings("a ", 2))
         for n in range(0, 4 if tier == "quick" else 5):
             for l in itertools.product(elems, repeat=n):
